@@ -1,6 +1,7 @@
 (* Executable model of arr.ai bundling (property C15).
 
-   Go code transcribed (pinned tree):
+   Go code transcribed (/repo as of 313410f: local imports that clean to the
+   empty path are rejected, the import path is trimmed before cleaning):
      syntax/compile.go   compilePackage (local-import branch)        -> do_import (first half)
      syntax/import.go    importLocalFile, findRootFromModule,
                          fileValue                                    -> do_import, find_root
@@ -196,7 +197,7 @@ Section Comp.
     let cl := if i_root i then (O, clean_abs (i_segs i)) else clean_rel (i_segs i) in
     let r := snd cl in
     if negb (i_root i) && ((0 <? fst cl)%nat || starts_dotdot (hd [] r)) then Err
-    else if i_root i && match r with [] => true | _ => false end then Err
+    else if match r with [] => true | _ => false end then Err     (* "does not name a file" (313410f) *)
     else if i_root i then
       match find_root L dir with
       | None => Err
@@ -322,7 +323,6 @@ Definition cleaned (i : import) : nat * path :=
 
 Definition wf_import (i : import) : bool :=
   forallb slashfree (i_segs i) &&
-  match snd (cleaned i) with [] => false | _ => true end &&
   negb (existsb ws_edge (snd (cleaned i))) &&          (* strings.Trim(importPath, " \t\n") is a no-op *)
   negb (existsb ends_dotdot (snd (cleaned i))).        (* strings.ReplaceAll(importPath, "../", "") is a no-op *)
 
